@@ -130,6 +130,24 @@ Print Assumptions C13_delay.
 Print Assumptions C13_model_meets_statement.
 Print Assumptions C13_due_at_civil.
 
+(* "including across daylight-saving changes", for ANY offset function with a transition at T.
+   Spring forward by g: no instant shows a wall clock inside the skipped interval [T+o, T+o+g). *)
+Theorem C13_dst_gap_never_read : forall (tzoff : nat -> Z -> Z) z T o g, 0 < g ->
+  (forall t, t < T -> tzoff z t = o) -> (forall t, T <= t -> tzoff z t = o + g) ->
+  forall now, ~ (T + o <= now + shift tzoff (Zone z) now < T + o + g).
+Proof. exact dst_gap_never_read. Qed.
+Print Assumptions C13_dst_gap_never_read.
+
+(* Fall back by g: every reading L of the repeated interval is shown at the two instants L-o and L-o+g, and the
+   schedule gets the same answer at both (a schedule in the repeated hour is due twice). *)
+Theorem C13_dst_overlap_twice : forall (tzoff : nat -> Z -> Z) z T o g e L, 0 < g ->
+  (forall t, t < T -> tzoff z t = o) -> (forall t, T <= t -> tzoff z t = o - g) ->
+  T + o - g <= L < T + o ->
+  (L - o) + shift tzoff (Zone z) (L - o) = L /\ (L - o + g) + shift tzoff (Zone z) (L - o + g) = L /\
+  cron_due tzoff e (Zone z) (L - o) = cron_due tzoff e (Zone z) (L - o + g).
+Proof. exact dst_overlap_twice. Qed.
+Print Assumptions C13_dst_overlap_twice.
+
 (* ------------------------------------------------------------------ non-vacuity *)
 (* 2026-03-29T01:30:00Z, Europe/Berlin just after the spring-forward (+2 h): local 03:30 on Sunday 29 March *)
 Example C13_example_zone :
